@@ -43,6 +43,9 @@ def pick_id(ch, nxt, hi, parity):
     return (TOP if parity else TOP - 1) + 2 * ch.int(1, 3)
 
 
+BAD_REQ = [(b':method', b'GET'), (b':scheme', b'https'), (b':authority', b'example.com'), (b'x-no-path', b'1')]
+
+
 def apply_op(w, op, r):
     """Execute one op on world ``w``; returns its reaction summary (None for PRIORITY frames)."""
     kind = op[0]
@@ -68,6 +71,20 @@ def apply_op(w, op, r):
                 w.violate('promised-id-differs-on-the-wire', 'asked %d, emitted %r' % (op[2], o.frames))
             if op[2] > TOP:
                 w.violate('promised-id-above-2^31-1', str(op[2]))
+    elif kind in ('open-local-bad', 'push-bad'):
+        # an open / a promise that is refused because of its header list (validation runs after the stream
+        # object exists): the id was never used, every watermark stays where it was
+        if kind == 'open-local-bad':
+            o = w.s.call('send_headers', op[1], BAD_REQ, end_stream=op[2])
+        else:
+            o = w.s.call('push_stream', op[1], op[2], BAD_REQ)
+        r.step(kind, op[1], op[2], o.brief())
+        res = 'refused'
+        if o.ok:
+            w.violate('invalid-header-list-accepted:%s' % kind, repr(o.frames)[:120])
+            w.stop = True
+        elif o.out:
+            w.violate('refused-open-emitted:%s' % kind, o.out.hex()[:60])
     elif kind == 'open-peer':
         res, o = w.recv_headers(op[1], 'final', op[2])
     elif kind == 'peer-push':
@@ -130,13 +147,27 @@ def run_case(data):
         usable = sorted(s for s in m.streams if s not in w.tainted)
         kind = ch.weighted([(6, 'open-local' if client else 'push'), (6, 'open-peer' if not client else 'peer-push'),
                             (3, 'local-end'), (3, 'peer-end'), (2, 'respond'), (4, 'prio'), (2, 'query'),
-                            (1, 'cleanup')] + ([(4, 'peer-headers-on-promised')] if client else []))
+                            (1, 'cleanup'), (2, 'open-local-bad' if client else 'push-bad')] +
+                           ([(4, 'peer-headers-on-promised')] if client else []))
         op = None
         if kind == 'open-local':
             sid = pick_id(ch, w.next_local_id(), m.hi_local, 1)
             if sid in w.tainted:
                 continue
             op = (kind, sid, ch.chance(64))
+        elif kind == 'open-local-bad':
+            sid = w.next_local_id()
+            if sid > TOP or m.send_headers_verdict(sid, 'final', False)[0] != M.PERMIT:
+                continue
+            op = (kind, sid, ch.chance(64))
+        elif kind == 'push-bad':
+            parents = [s for s in usable if s % 2 == 1 and m.get(s).state in (M.OPEN, M.HC_REMOTE)]
+            if not parents:
+                continue
+            par = ch.pick(parents)
+            if w.next_local_id() > TOP or m.push_verdict(par, w.next_local_id())[0] != M.PERMIT:
+                continue
+            op = (kind, par, w.next_local_id())
         elif kind == 'push':
             parents = [s for s in usable if s % 2 == 1 and m.get(s).state in (M.OPEN, M.HC_REMOTE)]
             if not parents:
@@ -155,7 +186,9 @@ def run_case(data):
                 continue
             op = ('open-peer', sid, ch.chance(128))
         elif kind == 'peer-push':
-            parents = [s for s in usable if s % 2 == 1 and m.get(s).state in (M.OPEN, M.HC_LOCAL)]
+            parents = [s for s in usable if s % 2 == 1 and (m.get(s).state in (M.OPEN, M.HC_LOCAL) or
+                                                            (m.get(s).state == M.CLOSED and
+                                                             m.get(s).closed_by == 'send-rst'))]
             if not parents:
                 continue
             pid = pick_id(ch, w.next_peer_id(), m.hi_peer, 0)
